@@ -45,9 +45,24 @@ pub struct Stats {
     /// nodes on which a block scanner made at least one block step (peek_n / as_ref calls)
     pub block_nodes: u64,
     pub samples: Vec<String>,
+    /// model transitions taken along tree edges: bitset over (control id of the source state, byte)
+    pub pairs: Vec<u64>,
 }
 
+pub const PAIR_WORDS: usize = 512 * 256 / 64;
+
 impl Stats {
+    #[inline]
+    pub fn mark_pair(&mut self, control_id: usize, byte: u8) {
+        if self.pairs.is_empty() {
+            self.pairs = vec![0; PAIR_WORDS];
+        }
+        let i = control_id * 256 + byte as usize;
+        self.pairs[i >> 6] |= 1 << (i & 63);
+    }
+    pub fn pairs_covered(&self) -> u64 {
+        self.pairs.iter().map(|w| w.count_ones() as u64).sum()
+    }
     pub fn merge(&mut self, o: &Stats) {
         self.nodes += o.nodes;
         self.edges += o.edges;
@@ -65,6 +80,14 @@ impl Stats {
             self.control[i] |= o.control[i];
         }
         self.block_nodes += o.block_nodes;
+        if !o.pairs.is_empty() {
+            if self.pairs.is_empty() {
+                self.pairs = vec![0; PAIR_WORDS];
+            }
+            for (a, b) in self.pairs.iter_mut().zip(o.pairs.iter()) {
+                *a |= *b;
+            }
+        }
         for s in &o.samples {
             if self.samples.len() < 12 {
                 self.samples.push(s.clone());
